@@ -253,6 +253,32 @@ def entry_depths(prog, la, exempt_names):
     return depth, witness
 
 
+def _borrowing_call(prog, f, callee_name, line):
+    """the call at `line` is to a repository accessor with a copy flag (a bool parameter named newmem) passed as a
+    literal false: the result points into container storage and is valid only while the lock is held"""
+    from .expr import int_value
+    for x in walk(f.body):
+        if x.get('kind') == 'CallExpr' and x.get('_line') == line:
+            f0 = strip(children(x)[0])
+            nm = (f0.get('referencedDecl') or {}).get('name') if f0.get('kind') == 'DeclRefExpr' else f0.get('name')
+            if nm != callee_name:
+                continue
+            for c in prog.callees(f.unit, x):
+                if isinstance(c, Ext):
+                    continue
+                for i, p in enumerate(c.params):
+                    if p.get('name') == 'newmem' and i + 1 < len(children(x)):
+                        if int_value(children(x)[i + 1]) == 0:
+                            return True
+    return False
+
+
+# callee -> indexes of the arguments whose pointee is read
+READ_ARGS = {'atoll': (0,), 'atoi': (0,), 'atol': (0,), 'atof': (0,), 'strtol': (0,), 'strtoll': (0,), 'strtoul': (0,), 'strtod': (0,),
+             'memcpy': (1,), 'memmove': (1,), 'strdup': (0,), 'strndup': (0,), 'qmemdup': (0,), 'strlen': (0,), 'strcmp': (0, 1),
+             'strcasecmp': (0, 1), 'memcmp': (0, 1), 'strcpy': (1,), 'strncpy': (1,)}
+
+
 def rule_c13(prog, rep):
     la = LockAnalysis(prog)
     sm = SharedModel(prog)
@@ -314,6 +340,47 @@ def rule_c13(prog, rep):
                 if rv and (f.name, rv[2] if len(rv) > 2 else '') in EXEMPT_ACCESS:
                     continue
                 hits.setdefault((fo[0], fo[1]), []).append(n.line)
+        # element bytes read through a local copy of a shared payload pointer after the lock was released
+        # (`data = obj->data; unlock(); memcpy(dup, data, n)`): the block may be freed or replaced by another thread
+        rd_alias = None
+        for n in f.cfg.nodes:
+            s = st.get(n.id)
+            if not s or min(s) >= 1 or n.kind == 'macro' or not isinstance(n.ast, dict):
+                continue
+            for c in walk(n.ast):
+                if c.get('kind') != 'CallExpr':
+                    continue
+                srcs = READ_ARGS.get(prog.callee_name(c))
+                if not srcs:
+                    continue
+                args = children(c)[1:]
+                for i in srcs:
+                    if i >= len(args):
+                        continue
+                    a = strip(args[i])
+                    if a.get('kind') != 'DeclRefExpr' or (a.get('_ref') or ('',))[0] != 'local':
+                        continue
+                    if rd_alias is None:
+                        from .dataflow import ReachingDefs, origins
+                        rd_alias = ReachingDefs(f)
+                    if n.id not in rd_alias.IN:
+                        continue
+                    for t in origins(rd_alias, n.id, a):
+                        mcall = re.match(r'call:(\w+)@(\d+)', t)
+                        if mcall and _borrowing_call(prog, f, mcall.group(1), int(mcall.group(2))):
+                            nacc += 1
+                            hits.setdefault(('borrowed', '%s(..., newmem=false) result read after the callee released the lock'
+                                             % mcall.group(1)), []).append(n.line)
+                            continue
+                        if not t.startswith('path:'):
+                            continue
+                        for m in walk(f.body):
+                            if m.get('kind') == 'MemberExpr' and canon(m) == t[5:]:
+                                fo = sm.is_shared_access(f, m)
+                                if fo and qtype(m).rstrip().endswith('*'):
+                                    nacc += 1
+                                    hits.setdefault((fo[0], fo[1] + ' (bytes read through a local alias after the unlock)'), []).append(n.line)
+                                break
         if nacc == 0:
             continue
         if f.static:
